@@ -178,9 +178,9 @@ func mutateField(r *rand.Rand, s *spec, name string) bool {
 	case "EventNonce":
 		s.EventNonce += 1 + uint64(r.Intn(3))
 	case "EthBlockHeight":
-		s.Height += 1 + uint64(r.Intn(3))
+		s.Height += numStep(r)
 	case "BatchNonce":
-		s.BatchNonce += 1 + uint64(r.Intn(3))
+		s.BatchNonce += numStep(r)
 	case "SkywayNonce":
 		s.SkywayNonce += 1 + uint64(r.Intn(3))
 	case "TokenContract":
@@ -481,6 +481,27 @@ func TestCorr(t *testing.T) {
 	envH := newEnv(t, false)
 	K := append([]byte{}, types.OracleAttestationKey...)
 
+	// every implementation registered for the claim interface (what an Any in a stored attestation can be unpacked to)
+	// must be a claim type this harness can build
+	for _, url := range envH.in.Marshaler.InterfaceRegistry().ListImplementations("palomachain.paloma.skyway.EthereumClaim") {
+		m, err := envH.in.Marshaler.InterfaceRegistry().Resolve(url)
+		if err != nil {
+			t.Fatalf("cannot resolve registered claim implementation %s: %v", url, err)
+		}
+		c, ok := m.(types.EthereumClaim)
+		if !ok {
+			t.Fatalf("registered claim implementation %s is not an EthereumClaim", url)
+		}
+		known := typeName(c) == "MsgBatchSendToEthClaim"
+		for _, n := range typeNames {
+			known = known || n == typeName(c)
+		}
+		if !known {
+			t.Fatalf("claim type %s (%s) is registered for the EthereumClaim interface but unknown to the C11 harness: add it to build(), the generators and Claims.known_claim_types", typeName(c), url)
+		}
+		run.Count("registered-claim-type", typeName(c))
+	}
+
 	// ---------- pair oracle + effect case ----------
 	envE := newEnv(t, true)
 	doPair := func(c1, c2 types.EthereumClaim, kind string, replay any) {
@@ -629,9 +650,11 @@ func TestCorr(t *testing.T) {
 			}
 			c = build(s)
 		}
-		h, err := c.ClaimHash()
-		if err != nil {
-			t.Fatal(err)
+		h, panicked := safeHash(c)
+		if panicked {
+			run.Violate("C11:claimhash-panic:"+typeName(c), fmt.Sprintf("ClaimHash of a %s body panicked or failed (body %v)", typeName(c), c), map[string]any{"kind": "hash", "claim": fmt.Sprint(c)})
+			run.Count("hash", typeName(c)+":panic")
+			continue
 		}
 		run.Count("hash", typeName(c)+fmt.Sprintf(":clean-%v", cleanClaim(c)))
 		if i%5 == 0 {
@@ -683,6 +706,24 @@ func TestCorr(t *testing.T) {
 				}
 				b.Amount = x
 				doPair(build(a), build(b), "amount-alias:"+kind, map[string]any{"kind": "pair", "a": toJ(a), "b": toJ(b)})
+			}
+		}
+	}
+	// counters a narrowing renderer would identify (low 32 / 31 / 16 bits, sign bit), each run
+	for tt := 0; tt < 3; tt++ {
+		for _, fn := range []string{"EthBlockHeight", "BatchNonce"} {
+			for _, d := range numAliasSteps {
+				a := honestSpec(r, tt, 1)
+				b := a.clone()
+				if fn == "BatchNonce" && tt != tBatch {
+					continue
+				}
+				if fn == "EthBlockHeight" {
+					b.Height += d
+				} else {
+					b.BatchNonce += d
+				}
+				doPair(build(a), build(b), fmt.Sprintf("num-alias:%s+%d", fn, d), map[string]any{"kind": "pair", "a": toJ(a), "b": toJ(b)})
 			}
 		}
 	}
